@@ -304,6 +304,9 @@ type typeStat struct {
 	RoundTrips                int64
 	Prefixes, PrefixAccepted  int64
 	Extensions, ExtAccepted   int64
+	HdrPrefixes               int64 // second pass: prefixes of the body under a consistent header
+	HdrAcceptedValid          int64 // ... accepted, and the prefix is itself the encoding of the decoded value
+	HdrAcceptedInvalid        int64 // ... accepted, but the decoded value marshals to other bytes
 	MaxEncoding               int
 	prefixSkippedLargeObserve int64
 }
@@ -477,6 +480,72 @@ func (sp *spec) eval(asg []int, order [2]int, ws *wstate, cl *collector) {
 		}
 	} else {
 		ts.prefixSkippedLargeObserve++
+	}
+	// truncation, second pass: the 24-bit length of the handshake header is rewritten to the truncated body
+	// length, so that a codec that first compares the header with len(data) still gets to parse a cut body.
+	// Such an input is no longer a prefix of enc; it is a message of its own. It must be rejected unless it is
+	// itself the encoding of a value: then the decoded value marshals to exactly these bytes.
+	if !sp.noHeader && len(enc) >= 4 && (sp.strictPrefix || len(enc) <= observedPrefixLimit) {
+		buf := append([]byte(nil), enc...)
+		kind := "optional-tail type"
+		if sp.strictPrefix {
+			kind = "strict type"
+		}
+		var rej, accValid, accInvalid int64
+		for n := 4; n < len(enc); n++ {
+			l := n - 4
+			buf[1], buf[2], buf[3] = byte(l>>16), byte(l>>8), byte(l)
+			var pok bool
+			if p, msg, site := ev.Try(func() { pok = tls.VerifC30Unmarshal(r, buf[:n:n]) }); p {
+				viol("unmarshal panics on a truncated body under a consistent header @"+site+": "+ev.MsgClass(msg), msg, n, nil)
+				break
+			}
+			if !pok {
+				rej++
+				continue
+			}
+			// decode again into a fresh receiver (some codecs do not reset every field) and marshal that
+			fr := sp.receiver(m)
+			var ok2 bool
+			var re []byte
+			if p, msg, site := ev.Try(func() {
+				ok2 = tls.VerifC30Unmarshal(fr, buf[:n:n])
+				clearRaw(fr)
+				re = tls.VerifC30Marshal(fr)
+			}); p {
+				viol("panic while re-encoding an accepted truncated body @"+site+": "+ev.MsgClass(msg), msg, n, nil)
+				break
+			}
+			ws.transitions += 2
+			ws.evaluations++
+			if ok2 && bytes.Equal(re, buf[:n]) {
+				accValid++
+				continue
+			}
+			accInvalid++
+			if sp.strictPrefix && accInvalid == 1 {
+				viol("truncated body under a consistent header accepted although it is not the encoding of the decoded value",
+					fmt.Sprintf("body cut to %d of %d bytes, header length patched to %d; accepted; the decoded value marshals to %d bytes: %s",
+						l, len(enc)-4, l, len(re), hex.EncodeToString(head(re, 80))), n, nil)
+			}
+		}
+		tried := int64(len(enc) - 4)
+		ws.transitions += tried
+		ws.evaluations += tried
+		ts.HdrPrefixes += tried
+		ts.HdrAcceptedValid += accValid
+		ts.HdrAcceptedInvalid += accInvalid
+		ws.hist[kind+": truncated body, consistent header: rejected"] += rej
+		if accValid > 0 {
+			ws.hist[kind+": truncated body, consistent header: accepted, is itself a valid encoding (allowed)"] += accValid
+		}
+		if accInvalid > 0 {
+			if sp.strictPrefix {
+				ws.hist[kind+": truncated body, consistent header: ACCEPTED, not a valid encoding"] += accInvalid
+			} else {
+				ws.hist[kind+": truncated body, consistent header: accepted, re-encodes differently (observed)"] += accInvalid
+			}
+		}
 	}
 	// proper extensions E||x
 	buf := make([]byte, 0, len(enc)+8)
@@ -689,10 +758,13 @@ func main() {
 		fullLimit := int64(ev.Pick(c, 5000, 200000))
 		c.Rule("G-field: per type, slots (wire fields or wire-coupled field groups) with boundary alphabets (specs.go); every assignment with <= d non-default slots " +
 			"(d=3 quick, 4 thorough; full Cartesian product when it has <= 5000 (quick) / 200000 (thorough) values) plus one all-slots-non-default corner per type; " +
-			"a value is non-trivial/distinct when it is in-domain (or RFC-borderline and tolerated) and round-trips: only those get the prefix and extension walks")
+			"a value is non-trivial/distinct when it is in-domain (or RFC-borderline and tolerated) and round-trips: only those get the walks: (1) every strict prefix enc[:n] as is; " +
+			"(2) for the 18 handshake-message types, every strict prefix of the BODY with the 24-bit header length rewritten to the cut length (n = 4..len-1), so that codecs that check the header first still parse a cut body; " +
+			"(3) enc plus trailing bytes")
 		c.Assume(
 			"value domain = what the TLS wire format (RFC 5246/5077/6066/7301/8446, draft extended-random) can represent; couplings taken from the constraints of the quick.Generators in tls/handshake_messages_test.go",
-			"fields that neither codec direction touches are not part of the encoded value and stay zero: raw (cache), serverKeyExchangeMsg.digest, clientHelloMsg.sctEnabled, clientHelloMsg.unknownExtensions (declared TODO), Certificate.{PrivateKey,SupportedSignatureAlgorithms,Leaf}",
+			"fields that neither codec direction touches are not part of the encoded value and stay zero: raw (cache), serverKeyExchangeMsg.digest, clientHelloMsg.sctEnabled, clientHelloMsg.unknownExtensions (declared TODO), Certificate.{PrivateKey,SupportedSignatureAlgorithms,Leaf}. For the three named message fields this is checked in every run (setting the field does not change marshal's output, unmarshal leaves it zero), and every other field of every type must be driven by a slot: otherwise the run is marked incomplete",
+			"a truncated body under a consistent header is not a prefix of the encoding any more: it is judged as a message of its own: reject it, or accept it and decode a value that marshals to exactly these bytes (e.g. a ClientKeyExchange with a shorter opaque body). Verdict for the types without optional tail, observed for the four optional-tail types",
 			"decode-context flags are given to the receiver before unmarshal as the callers do: certificateRequestMsg/certificateVerifyMsg.hasSignatureAlgorithm, sessionState.usedOldKey",
 			"nil and empty slices are the same value",
 			"optional-tail types, prefix/extension verdicts observed only: clientHelloMsg, serverHelloMsg (extensions block optional), finishedMsg (statement/test exempt it: verify_data length varies by version), serverKeyExchangeMsg (body is the unframed remainder data[4:], the codec defines no end of the value; framing is done by Conn.readHandshake)",
@@ -718,6 +790,79 @@ func main() {
 				c.Incomplete("types with marshal/unmarshal in the source but no spec in this check: " + strings.Join(missing, ","))
 			}
 		}
+
+		// self-check of the field lists: every field of every type is driven by a slot, is a decode-context field,
+		// is the marshal cache, or is one of the declared-unset fields, and those are verified not to be wire-visible
+		declaredUnset := map[string]map[string]any{
+			"clientHelloMsg":       {"sctEnabled": true, "unknownExtensions": [][]byte{{0xfa, 0xfa, 0x00, 0x01, 0x07}}},
+			"serverKeyExchangeMsg": {"digest": []byte{1, 2, 3}},
+		}
+		fieldReport := map[string]any{}
+		for _, sp := range specs {
+			v := reflect.ValueOf(tls.VerifC30New(sp.name)).Elem()
+			driven := map[string]bool{"raw": true}
+			for _, cf := range sp.ctx {
+				driven[strings.Split(cf, ".")[0]] = true
+			}
+			for _, sl := range sp.slots {
+				for _, al := range sl.alts {
+					for _, kv := range al.set {
+						driven[strings.Split(kv.path, ".")[0]] = true
+					}
+				}
+			}
+			var uncovered []string
+			if v.Kind() == reflect.Struct {
+				for i := 0; i < v.NumField(); i++ {
+					name := v.Type().Field(i).Name
+					if driven[name] {
+						continue
+					}
+					val, declared := declaredUnset[sp.name][name]
+					if !declared {
+						uncovered = append(uncovered, name)
+						continue
+					}
+					// not wire-visible: marshal ignores it, unmarshal leaves it zero
+					base := sp.build(make([]int, len(sp.slots)))
+					with := sp.build(make([]int, len(sp.slots)))
+					assign(fieldByPath(reflect.ValueOf(with).Elem(), name), val)
+					var e0, e1 []byte
+					var ok bool
+					back := sp.receiver(base)
+					if p, msg, _ := ev.Try(func() {
+						e0, e1 = tls.VerifC30Marshal(base), tls.VerifC30Marshal(with)
+						ok = tls.VerifC30Unmarshal(back, append([]byte(nil), e0...))
+					}); p {
+						c.Incomplete("self-check of " + sp.name + "." + name + " panicked: " + msg)
+						continue
+					}
+					c.Transitions.Add(3)
+					if !bytes.Equal(e0, e1) || !ok || !fieldByPath(reflect.ValueOf(back).Elem(), name).IsZero() {
+						c.Incomplete("field " + sp.name + "." + name + " is declared 'touched by neither codec direction' but is wire-visible now: it needs a slot")
+						c.Outcome("self-check: declared-unset field IS wire-visible", 1)
+						// it is part of the encoded value now: the round trip must preserve it
+						back1 := sp.receiver(with)
+						var ok1 bool
+						ev.Try(func() { ok1 = tls.VerifC30Unmarshal(back1, append([]byte(nil), e1...)) })
+						if d := diffMsgs(with, back1); !ok1 || d != "" {
+							w := witness{Type: sp.name, Assign: map[string]string{name: "set (all slots default)"}, Deviations: 1, Status: "in-domain",
+								Detail:      "field " + name + " changes the encoding but does not survive the round trip (first differing field: " + d + ")",
+								EncodingLen: len(e1), EncodingHex: hex.EncodeToString(head(e1, 160))}
+							cl.report(sp.name+": decoded value differs at "+name+" (a field declared untouched by the codec is on the wire)", w, [2]int{1, 0})
+						}
+					} else {
+						c.Outcome("self-check: declared-unset field is not wire-visible", 1)
+					}
+				}
+			}
+			if len(uncovered) > 0 {
+				sort.Strings(uncovered)
+				fieldReport[sp.name] = uncovered
+				c.Incomplete("fields of " + sp.name + " that no slot drives: " + strings.Join(uncovered, ","))
+			}
+		}
+		c.Set("fields_without_slot", fieldReport)
 
 		var jobs []job
 		plan := map[string]any{}
@@ -852,6 +997,9 @@ func main() {
 				a.PrefixAccepted += t.PrefixAccepted
 				a.Extensions += t.Extensions
 				a.ExtAccepted += t.ExtAccepted
+				a.HdrPrefixes += t.HdrPrefixes
+				a.HdrAcceptedValid += t.HdrAcceptedValid
+				a.HdrAcceptedInvalid += t.HdrAcceptedInvalid
 				a.prefixSkippedLargeObserve += t.prefixSkippedLargeObserve
 				if t.MaxEncoding > a.MaxEncoding {
 					a.MaxEncoding = t.MaxEncoding
@@ -865,6 +1013,7 @@ func main() {
 			per[k] = map[string]any{"values": t.Values, "in_domain": t.In, "borderline": t.Amb, "not_representable": t.Out,
 				"round_trips_equal": t.RoundTrips, "prefixes_tried": t.Prefixes, "prefixes_accepted": t.PrefixAccepted,
 				"extensions_tried": t.Extensions, "extensions_accepted": t.ExtAccepted, "max_encoding_len": t.MaxEncoding,
+				"truncated_bodies_with_consistent_header_tried": t.HdrPrefixes, "of_those_accepted_and_valid_encodings": t.HdrAcceptedValid, "of_those_accepted_and_not_valid": t.HdrAcceptedInvalid,
 				"large_observed_only_encodings_without_prefix_walk": t.prefixSkippedLargeObserve}
 		}
 		c.Set("per_type", per)
